@@ -2,7 +2,7 @@
 # usage: seed_matrix.sh [seed names...]  -> for each seeded change: scratch copy of /repo with the patch, run the check of its property
 # (VERIF_REPO points the checks at the scratch copy; /repo itself is not touched). Output: one line per seed.
 cd /verif
-seeds="$@"; [ -z "$seeds" ] && seeds=$(ls seeded)
+seeds="$@"; [ -z "$seeds" ] && seeds=$(ls seeded | grep -v "^harmless_" | grep -v MATRIX)
 for name in $seeds; do
   d=/verif/seeded/$name; prop=${name:0:3}
   tmp=$(mktemp -d /tmp/seedm.XXXX); mkdir -p $tmp/repo; cp -r /repo/src $tmp/repo/
